@@ -552,11 +552,28 @@ pub fn directed_raw_image(k: u64) -> Vec<u16> {
     const SPECIAL: [u16; 8] = [0xFE00, 0xFE02, 0xFE04, 0xFE06, 0xFFFC, 0xFFFE, 0xFDFF, 0xFFFF];
     let k = k as usize;
     let mut orig = [0x3000u16, 0x0200, 0x8000, 0xFD00][k % 4];
-    if (12..=14).contains(&((k / 4) % 16)) && orig == 0xFD00 {
+    if (12..=14).contains(&((k / 4) % 18)) && orig == 0xFD00 {
         orig = 0x4000; // (the long images do not fit above xFD00)
     }
     let orig = orig;
-    let body: Vec<u16> = match (k / 4) % 16 {
+    if (k / 4) % 18 >= 16 {
+        // addresses that wrap around the ends of the address space: PC-relative loads and stores from an image at
+        // the very bottom of memory reach the top, and the other way round
+        let low = (k / 4) % 18 == 16;
+        let orig = if low { [0x0000u16, 0x0002, 0x0001, 0x0000][k % 4] } else { [0xFFF0u16, 0xFFF4, 0xFFF8, 0xFFF0][k % 4] };
+        let body: Vec<u16> = if low {
+            // LD R0,+5 ; ST R0,#-8 (wraps to the top) ; LD R1,#-9 (same word) ; ADD R2,R1,#1 ; LEA R3,#-16 ; HALT ; data
+            vec![0x2005, 0x31F8, 0x23F7, 0x1461, 0xE7F0, 0xF025, 0x0041]
+        } else {
+            // from the top of memory forward past xFFFF: LD R0,+2 ; ST R0,+40 (wraps to the bottom) ; LD R1,+39 ; HALT ; data
+            // (execution above xFE00 is outside the claim: the reference says so, or agrees)
+            vec![0x2003, 0x3028, 0x2227, 0xF025, 0x0042]
+        };
+        let mut v = vec![orig];
+        v.extend(body);
+        return v;
+    }
+    let body: Vec<u16> = match (k / 4) % 18 {
         // both ends of every PC-relative and base+offset field, in images long enough to hold the target
         12 => {
             // JSR +1023 to a JSR -1024 which calls the routine right behind the first word
